@@ -302,7 +302,7 @@ class SymExec:
                 if getattr(self, 'on_expr', None) is not None and self.on_expr(s, env, self):
                     continue
                 raise Unsupported('statement with side effect at line %s: %s' % (s.lineno, src(s)))
-            if isinstance(s, ast.Pass):
+            if isinstance(s, (ast.Pass, ast.Global, ast.Import, ast.ImportFrom)):
                 continue
             if isinstance(s, ast.AnnAssign):
                 if s.value is not None:
